@@ -526,7 +526,12 @@ def crash_program(rng, pid, cfg, cs, n_files=2, n_after=12):
         if rng.random() < 0.5:
             ops.append({"op": "seek", "h": h, "from": "start", "off": rng.choice([0, 1, cs])})
             ops.append({"op": "truncate", "h": h})
-        ops.append({"op": rng.choice(["flush", "close"]), "h": h})
+        if rng.random() < 0.3:
+            # the flush goes through a clone of the handle (File::clone copies the pending entry changes); the original stays open
+            ops.append({"op": "clone", "h": h, "as": h + "c"})
+            ops.append({"op": rng.choice(["flush", "close"]), "h": h + "c"})
+        else:
+            ops.append({"op": rng.choice(["flush", "close"]), "h": h})
         hs.append((h, nm))
     # unrelated activity afterwards: other files, directories, removal of neighbours, renames
     for j in range(n_after):
@@ -896,6 +901,37 @@ def alias_program(rng, pid, cfg, names, removals=0.15, every=1):
     ops.append({"op": "list", "at": "D", "path": ""})
     ops.append({"op": "unmount"})
     return {"id": pid, "cfg": cfg, "ops": ops, "origin": "alias"}
+
+
+def alias_move_program(rng, pid, cfg, n=8):
+    """entries keep or change their name while they move between directories whose other entries generate the same aliases: the alias
+    must be unique in the directory the entry arrives in"""
+    ops = [{"op": "create_dir", "at": "", "path": "in"}, {"op": "create_dir", "at": "", "path": "out"}]
+    stems = ["quarterly report", "Long File Name", "longfilename", "x" * 9, "\u00e9t\u00e9 holiday"]
+    moved = []
+    for i in range(n):
+        st = rng.choice(stems)
+        ext = rng.choice([".txt", ".data", ""])
+        a, b = "%s draft %d%s" % (st, i, ext), "%s final %d%s" % (st, i, ext)
+        kind = rng.choice(["create_file", "create_file", "create_dir"])
+        ops.append({"op": kind, "at": "", "path": "in/" + a})
+        ops.append({"op": kind, "at": "", "path": "out/" + b})
+        moved.append(a)
+    rng.shuffle(moved)
+    for j, a in enumerate(moved):
+        r = rng.random()
+        if r < 0.6:
+            ops.append({"op": "rename", "at": "", "src": "in/" + a, "to": "", "dst": "out/" + a})            # same name, other directory
+        elif r < 0.8:
+            ops.append({"op": "rename", "at": "", "src": "in/" + a, "to": "", "dst": "out/" + a.upper()})    # other spelling
+        else:
+            ops.append({"op": "rename", "at": "", "src": "in/" + a, "to": "", "dst": "in/" + a.replace("draft", "drafted")})
+        if j % 3 == 2:
+            ops.append({"op": "list", "at": "", "path": "out"})
+    ops.append({"op": "list", "at": "", "path": "out"})
+    ops.append({"op": "list", "at": "", "path": "in"})
+    ops.append({"op": "unmount"})
+    return {"id": pid, "cfg": cfg, "ops": ops, "origin": "alias-move"}
 
 
 def stamp_values(rng, quick=True):
@@ -1414,9 +1450,27 @@ def lfn_run_slots(name_units, chk):
     return out
 
 
+def orphan_cases(rng, quick=True):
+    """an orphaned beginning of a long-name run (its "last" slot and perhaps more: a creation cut off by a power cut, or a foreign writer),
+    directly followed by the complete run of another entry whose name fills its slots exactly (no terminator on disk) or not"""
+    dirs = []
+    raw = [ord(c) for c in "TARGET  TXT"]
+    good = _chk(raw)
+    tail = [sfn_slot([ord(c) for c in "AFTER   BIN"], size=3)]
+    for order in (2, 3, 5, 20):
+        for kept in (1, 2) if order > 2 else (1,):
+            for ln in (12, 13, 14, 25, 26, 27, 39) if quick else range(1, 66):
+                for ck in (good, good ^ 0x33):
+                    orphan_name = [ord("z") - (k % 7) for k in range(order * 13 - rng.choice([0, 3]))]
+                    orphan = lfn_run_slots(orphan_name, ck)[:kept]
+                    name = [ord("n") if k % 2 else ord("e") for k in range(ln)]
+                    dirs.append(orphan + lfn_run_slots(name, good) + [sfn_slot(raw)] + tail)
+    return dirs
+
+
 def dir_cases(rng, quick=True):
     """list of directories (lists of 32-byte slots)"""
-    dirs = []
+    dirs = orphan_cases(rng, quick)
     raw = [ord(c) for c in "TARGET  TXT"]
     good = _chk(raw)
     tail = [sfn_slot([ord(c) for c in "AFTER   BIN"], size=3)]
@@ -1454,6 +1508,16 @@ def dir_cases(rng, quick=True):
         for ln in (n * 13, n * 13 - 1, n * 13 - 12):
             name = [ord("A") + (k % 26) for k in range(ln)]
             dirs.append(lfn_run_slots(name, good) + [sfn_slot(raw)] + tail)
+    # names around the 255-unit limit that contain valid surrogate pairs (a pair is one character but two units), also straddling slots
+    for ln in (254, 255, 256, 257, 259, 260):
+        for pairs_n in (1, 2, 5, 6) if quick else (1, 2, 3, 4, 5, 6, 20, 100):
+            for _rep in range(1 if quick else 3):
+                name = [ord("a") + (k % 26) for k in range(ln)]
+                for _p in range(pairs_n):
+                    at = rng.choice([0, 12, 25, rng.randrange(0, ln - 1), ln - 2])
+                    if all(0xD800 > name[x] or name[x] > 0xDFFF for x in (at, at + 1)):
+                        name[at], name[at + 1] = 0xD83D, 0xDE00 + rng.randrange(64)
+                dirs.append(lfn_run_slots(name, good) + [sfn_slot(raw)] + tail)
     # unpaired surrogates, NUL in the middle, 0xFFFF characters, garbage before a complete run
     for name in ([0xD800, 0x61], [0x61, 0xDC00], [0xD800, 0xD800], [0x61, 0, 0x62], [0xFFFF, 0x61], [0x61, 0xFFFF], [0xFFFF] * 13, [0] * 13, [0x61] * 13 + [0xFFFF]):
         dirs.append(lfn_run_slots(name, good) + [sfn_slot(raw)] + tail)
